@@ -577,4 +577,8 @@ def check(ctx, rep):
 
     # 'exactly those k are rewritten': a finding the reader drops is a reported site that stays unfixed
     rule_results_all_added(ctx, rep)
+    from .c16 import rule_args_info_fresh
+
+    # a reported site stays unfixed when an earlier site of the run consumed the shared argument specification
+    rule_args_info_fresh(ctx, rep)
     rep.not_covered += ["column arithmetic of match_location against each tool's real output", "closed/resolved issue filtering beyond the Sonar status test"]
